@@ -1035,4 +1035,735 @@ example : ((step toy okState (.setContent false (some [4, 4, 4]))).1.m0.cl,
     (step toy ⟨none, ⟨none, some brN, true, some 99⟩, emptyMsg⟩ (.setContent false (some [4]))).1.m0.cl) =
     (some 4, some 99) := by decide
 
+/-! ## round 3: statements over whole histories of get / set / decode / encode ops -/
+
+private theorem run_snoc (C : Codecs) (ops : List Op) (op : Op) :
+    ∀ s, (run C s (ops ++ [op])).1 = (step C (run C s ops).1 op).1 := by
+  induction ops with
+  | nil => intro s; rfl
+  | cons o ops ih => intro s; simp only [List.cons_append, run]; exact ih _
+
+private theorem setMsg_msg_ne (s : State) {i j : Bool} (m : Msg) (h : i ≠ j) : (s.setMsg i m).msg j = s.msg j := by
+  cases i <;> cases j <;> first | rfl | exact absurd rfl h
+
+private theorem setMsg_self (s : State) (i : Bool) : (({ s with cache := s.cache } : State).setMsg i (s.msg i)) = s := by
+  cases i <;> rfl
+
+/-- **C31 (isolation).** An op that is not a setter / decode / encode / mutator of message `j` — i.e. any op on the
+    other message, any `get_content`, any module-level `encoding.decode/encode` — leaves message `j` (raw body,
+    Content-Encoding, Transfer-Encoding, Content-Length) exactly as it was, in every state and whatever the codecs
+    return.  Messages are coupled only through the shared cache. -/
+theorem message_ops_isolated (C : Codecs) (s : State) (op : Op) (j : Bool) (h : op.writes j = false) :
+    (step C s op).1.msg j = s.msg j := by
+  cases op with
+  | dec x c e => rfl
+  | enc d c e => rfl
+  | getContent i st => rfl
+  | setContent i v =>
+    have hij : i ≠ j := by intro e; subst e; simp [Op.writes] at h
+    rw [step_set, setMsg_msg_ne _ _ hij]; rfl
+  | mdecode i st =>
+    have hij : i ≠ j := by intro e; subst e; simp [Op.writes] at h
+    rw [step_mdecode, setMsg_msg_ne _ _ hij]; rfl
+  | mencode i cd =>
+    have hij : i ≠ j := by intro e; subst e; simp [Op.writes] at h
+    rw [step_mencode, setMsg_msg_ne _ _ hij]; rfl
+  | setRaw i v =>
+    have hij : i ≠ j := by intro e; subst e; simp [Op.writes] at h
+    exact setMsg_msg_ne _ _ hij
+  | setCe i v =>
+    have hij : i ≠ j := by intro e; subst e; simp [Op.writes] at h
+    exact setMsg_msg_ne _ _ hij
+  | setTe i on =>
+    have hij : i ≠ j := by intro e; subst e; simp [Op.writes] at h
+    exact setMsg_msg_ne _ _ hij
+  | setCl i n =>
+    have hij : i ≠ j := by intro e; subst e; simp [Op.writes] at h
+    exact setMsg_msg_ne _ _ hij
+
+/-- lifted over a whole sub-history -/
+private theorem run_frame (C : Codecs) (j : Bool) (tail : List Op) :
+    ∀ s, (∀ o ∈ tail, o.writes j = false) → (run C s tail).1.msg j = s.msg j := by
+  induction tail with
+  | nil => intro s _; rfl
+  | cons o tail ih =>
+    intro s h
+    simp only [run]
+    rw [ih _ (fun o' ho' => h o' (List.mem_cons_of_mem _ ho')), message_ops_isolated C s o j (h o List.mem_cons_self)]
+
+/-- **C31 (get_content never writes).** `get_content` changes no message at all (only, possibly, the cache). -/
+theorem get_content_pure_on_message (C : Codecs) (s : State) (i st : Bool) :
+    (step C s (.getContent i st)).1.m0 = s.m0 ∧ (step C s (.getContent i st)).1.m1 = s.m1 := ⟨rfl, rfl⟩
+
+private theorem fresh_get (C : Codecs) (s : State) (i st : Bool) (raw x : Bytes)
+    (hr : (s.msg i).raw = some raw) (hce : (s.msg i).ce = some x) (hx : x.isEmpty = false)
+    (hid : identityDec.contains (asciiLower x) = false) :
+    freshOf C s (.getContent i st) = C.dec (asciiLower x) strictB raw := by
+  simp only [freshOf, need, needGet, hr, hce, hx, Bool.false_eq_true, if_false]
+  rw [needDec_of strictB raw hid]
+
+/-- under the invariant `get_content` returns the cache-free reading of the message -/
+private theorem getContent_res {C : Codecs} {c : Cache} (hi : Inv C c) (m : Msg) (st : Bool) (f : Res)
+    (hf : ∀ raw x, m.raw = some raw → m.ce = some x → x.isEmpty = false →
+      identityDec.contains (asciiLower x) = false → f = C.dec (asciiLower x) strictB raw) :
+    (getContent c m st f).1 = contentOf C m st := by
+  unfold getContent contentOf
+  cases hr : m.raw with
+  | none => rfl
+  | some raw =>
+    cases hce : m.ce with
+    | none => rfl
+    | some x =>
+      cases hx : x.isEmpty
+      · simp only [hx, Bool.false_eq_true, if_false]
+        have h := decodeStep_res hi raw x strictB f (hf raw x hr hce hx)
+        generalize decodeStep c raw x strictB f = p at h
+        obtain ⟨r, c'⟩ := p
+        simp only at h
+        rw [← h]
+        cases r <;> cases st <;> rfl
+      · simp only [hx, if_true]
+
+private theorem get_transparent_inv {C : Codecs} {s : State} (hi : Inv C s.cache) (i st : Bool) :
+    (step C s (.getContent i st)).2 = contentOf C (s.msg i) st := by
+  rw [step_get]
+  exact getContent_res hi (s.msg i) st _ (fun raw x hr hce hx hid => fresh_get C s i st raw x hr hce hx hid)
+
+/-- **C31 (the cache is transparent for `get_content`).** In every state reachable by any history, `get_content`
+    (strict or not, any header, any body incl. missing) returns exactly `contentOf` — what a process with no cache
+    computes from the message alone: bytes, `None`, ValueError or TypeError alike. -/
+theorem get_content_transparent (C : Codecs) (s0 : State) (h0 : s0.cache = none) (ops : List Op) (i st : Bool) :
+    (step C (run C s0 ops).1 (.getContent i st)).2 = contentOf C ((run C s0 ops).1.msg i) st :=
+  get_transparent_inv (run_inv C s0 h0 ops) i st
+
+/-- **C31 (get_content is idempotent).** After any history, two consecutive `get_content` calls return the same
+    result, and neither changes any message (the cache may change). -/
+theorem get_content_idempotent (C : Codecs) (s0 : State) (h0 : s0.cache = none) (ops : List Op) (i st : Bool) :
+    (step C (step C (run C s0 ops).1 (.getContent i st)).1 (.getContent i st)).2 =
+      (step C (run C s0 ops).1 (.getContent i st)).2 ∧
+    (step C (step C (run C s0 ops).1 (.getContent i st)).1 (.getContent i st)).1.m0 = (run C s0 ops).1.m0 ∧
+    (step C (step C (run C s0 ops).1 (.getContent i st)).1 (.getContent i st)).1.m1 = (run C s0 ops).1.m1 := by
+  have hi := run_inv C s0 h0 ops
+  generalize (run C s0 ops).1 = s at hi
+  refine ⟨?_, rfl, rfl⟩
+  rw [get_transparent_inv (step_inv C s _ hi) i st, get_transparent_inv hi i st]
+  rfl
+
+/-- **C31 (no result depends on earlier calls — `get_content`).** Two arbitrary histories (different ops, different
+    bodies, different other message) that leave message `i` resp. `i'` in the same state read the same content:
+    the coupling through the cache is not observable. -/
+theorem get_content_history_independent (C : Codecs) (s0 s0' : State) (h0 : s0.cache = none) (h0' : s0'.cache = none)
+    (ops ops' : List Op) (i i' st : Bool) (hm : (run C s0 ops).1.msg i = (run C s0' ops').1.msg i') :
+    (step C (run C s0 ops).1 (.getContent i st)).2 = (step C (run C s0' ops').1 (.getContent i' st)).2 := by
+  rw [get_content_transparent C s0 h0, get_content_transparent C s0' h0', hm]
+
+/-! ### assigning twice -/
+
+private theorem fixLen_again (m : Msg) (v : Bytes) (h : m.raw = some v) :
+    fixLen { fixLen m with raw := some v } = fixLen m := by
+  obtain ⟨raw, ce, te, cl⟩ := m
+  simp only at h
+  subst h
+  cases te <;> rfl
+
+private theorem encodeStep_again {C : Codecs} {c : Cache} (_hi : Inv C c) (d coding er : Bytes) (fresh : Res)
+    (hk : kindOf (asciiLower coding) = .cached) (hf : fresh = C.enc (asciiLower coding) er d) (f2 : Res) :
+    encodeStep (encodeStep c d coding er fresh).2 d coding er f2 = encodeStep c d coding er fresh := by
+  have hcd := (kind_cached_iff _).mp hk
+  have hid := (cached_facts hcd).1
+  obtain ⟨x, hx⟩ := C.enc_total (asciiLower coding) er d hk
+  unfold encodeStep
+  dsimp only
+  rw [tbl_identity, tbl_cached]
+  cases h : encHit c d (asciiLower coding) er with
+  | some y => simp only [h]
+  | none =>
+    simp only [hid, hf, hx, hcd, Bool.false_eq_true, if_false, if_true]
+    simp [encHit]
+
+private theorem setContent_again {C : Codecs} {c : Cache} (hi : Inv C c) (m : Msg) (v : Bytes) (fresh : Res)
+    (hok : OkName (effName m.ce))
+    (hf : identityEnc.contains (effName m.ce) = false → fresh = C.enc (effName m.ce) strictB v) (f2 : Res) :
+    setContent (setContent c m (some v) fresh).2.1 (setContent c m (some v) fresh).2.2 (some v) f2 =
+      (.done, (setContent c m (some v) fresh).2.1, (setContent c m (some v) fresh).2.2) ∧
+    OkName (effName (setContent c m (some v) fresh).2.2.ce) := by
+  rcases hok with hk | hk | hk
+  · rw [setContent_identity hi m v fresh hk]
+    simp only
+    have hk' : kindOf (effName (fixLen { m with raw := some v }).ce) = .identity := by rw [fixLen_ce]; exact hk
+    rw [setContent_identity hi _ v f2 hk', fixLen_again _ v rfl]
+    exact ⟨rfl, Or.inl hk'⟩
+  · have hni : kindOf (effName m.ce) ≠ .identity := by rw [hk]; decide
+    have hf' := hf (not_identity_contains hni)
+    obtain ⟨x, c', he, _, _, _⟩ := encodeStep_cachedKind hi v (ceOrIdentity m.ce) strictB fresh hk hf'
+    have hs : setContent c m (some v) fresh = (.done, c', fixLen { m with raw := some x }) := by
+      unfold setContent
+      simp only
+      rw [he]
+    have he2 : encodeStep c' v (ceOrIdentity m.ce) strictB f2 = (.ok x, c') := by
+      have := encodeStep_again hi v (ceOrIdentity m.ce) strictB fresh hk hf' f2
+      rw [he] at this
+      exact this
+    rw [hs]
+    simp only
+    have hs2 : setContent c' (fixLen { m with raw := some x }) (some v) f2 =
+        (.done, c', fixLen { fixLen { m with raw := some x } with raw := some x }) := by
+      unfold setContent
+      simp only [fixLen_ce]
+      rw [he2]
+    rw [hs2, fixLen_again _ x rfl]
+    exact ⟨rfl, Or.inr (Or.inl (by rw [fixLen_ce]; exact hk))⟩
+  · have hni : kindOf (effName m.ce) ≠ .identity := by rw [hk]; decide
+    rw [setContent_unknown hi m v fresh hk (hf (not_identity_contains hni))]
+    simp only
+    have hk' : kindOf (effName (fixLen { m with raw := some v, ce := none }).ce) = .identity := by
+      rw [fixLen_ce]; exact kind_eff_identityB
+    rw [setContent_identity hi _ v f2 hk', fixLen_again _ v rfl]
+    exact ⟨rfl, Or.inl hk'⟩
+
+private theorem set_get_inv {C : Codecs} {s : State} (hi : Inv C s.cache) (i : Bool) (v : Bytes)
+    (hok : OkName (effName (s.msg i).ce)) :
+    (step C s (.setContent i (some v))).2 = .done ∧
+    (step C (step C s (.setContent i (some v))).1 (.getContent i true)).2 = .ok v := by
+  obtain ⟨h1, h2⟩ := get_after_set hi (s.msg i) v (freshOf C s (.setContent i (some v))) hok (fresh_set C s i v)
+  rw [step_set]
+  refine ⟨h1, ?_⟩
+  rw [step_get]
+  simp only [setMsg_cache, setMsg_msg]
+  exact h2 true _
+
+private theorem set_again_inv {C : Codecs} {s : State} (hi : Inv C s.cache) (i : Bool) (v : Bytes)
+    (hok : OkName (effName (s.msg i).ce)) :
+    step C (step C s (.setContent i (some v))).1 (.setContent i (some v)) = ((step C s (.setContent i (some v))).1, .done) ∧
+    OkName (effName ((step C s (.setContent i (some v))).1.msg i).ce) := by
+  have key := fun f2 => setContent_again hi (s.msg i) v (freshOf C s (.setContent i (some v))) hok (fresh_set C s i v) f2
+  generalize ha : (step C s (.setContent i (some v))).1 = a at *
+  have hc : a.cache = (setContent s.cache (s.msg i) (some v) (freshOf C s (.setContent i (some v)))).2.1 := by
+    rw [← ha, step_set, setMsg_cache]
+  have hm : a.msg i = (setContent s.cache (s.msg i) (some v) (freshOf C s (.setContent i (some v)))).2.2 := by
+    rw [← ha, step_set, setMsg_msg]
+  constructor
+  · rw [step_set, hc, hm, (key _).1, ← hc, ← hm, setMsg_self]
+  · rw [hm]; exact (key .verr).2
+
+/-- **C31 (set_content is idempotent).** After any history, under an identity / compressed / unknown coding,
+    `set_content(v)` twice is exactly `set_content(v)` once: the second call completes and leaves BOTH messages and
+    the cache precisely as the first left them (same raw bytes — for a compressed coding the second call is served
+    from the entry the first one left; same headers, same Content-Length). -/
+theorem set_content_idempotent (C : Codecs) (s0 : State) (h0 : s0.cache = none) (ops : List Op) (i : Bool) (v : Bytes)
+    (hok : OkName (effName (((run C s0 ops).1.msg i).ce))) :
+    step C (step C (run C s0 ops).1 (.setContent i (some v))).1 (.setContent i (some v)) =
+      ((step C (run C s0 ops).1 (.setContent i (some v))).1, .done) :=
+  (set_again_inv (run_inv C s0 h0 ops) i v hok).1
+
+/-- **C31 (the last assignment wins).** After any history, `set_content(v1)` followed by `set_content(v2)`
+    completes and the message then reads `v2` — nothing of `v1` survives, whatever the cache held. -/
+theorem set_set_last_wins (C : Codecs) (s0 : State) (h0 : s0.cache = none) (ops : List Op) (i : Bool) (v1 v2 : Bytes)
+    (hok : OkName (effName (((run C s0 ops).1.msg i).ce))) :
+    (step C (step C (run C s0 ops).1 (.setContent i (some v1))).1 (.setContent i (some v2))).2 = .done ∧
+    (step C (step C (step C (run C s0 ops).1 (.setContent i (some v1))).1 (.setContent i (some v2))).1
+      (.getContent i true)).2 = .ok v2 := by
+  have hi := run_inv C s0 h0 ops
+  exact set_get_inv (step_inv C _ _ hi) i v2 (set_again_inv hi i v1 hok).2
+
+/-! ### `Message.decode` twice -/
+
+private theorem decodeStep_err_cache (c : Cache) (x coding er : Bytes) (f : Res)
+    (h : ∀ d, (decodeStep c x coding er f).1 ≠ .ok d) : (decodeStep c x coding er f).2 = c := by
+  unfold decodeStep at h ⊢
+  dsimp only at h ⊢
+  cases hh : decHit c x (asciiLower coding) er with
+  | some d => rfl
+  | none =>
+    simp only [hh] at h ⊢
+    generalize (if identityDec.contains (asciiLower coding) = true then Res.ok x else f) = r at h ⊢
+    cases r with
+    | ok d => exact absurd rfl (h d)
+    | _ => rfl
+
+/-- under an identity / compressed / unknown name `encoding.decode` yields bytes, or ValueError with the cache untouched -/
+private theorem decodeStep_shape {C : Codecs} {c : Cache} (hi : Inv C c) (x coding er : Bytes) (f : Res)
+    (hok : OkName (asciiLower coding))
+    (hf : identityDec.contains (asciiLower coding) = false → f = C.dec (asciiLower coding) er x) :
+    (∃ d c', decodeStep c x coding er f = (.ok d, c')) ∨ decodeStep c x coding er f = (.verr, c) := by
+  have hres := decodeStep_res hi x coding er f hf
+  have hu : (∃ d, uncachedDec C coding er x = .ok d) ∨ uncachedDec C coding er x = .verr := by
+    unfold uncachedDec
+    dsimp only
+    rcases hok with hk | hk | hk
+    · left; exact ⟨x, by rw [(kind_identity_iff _).mp hk]; rfl⟩
+    · rw [(cached_facts ((kind_cached_iff _).mp hk)).1]
+      simp only [Bool.false_eq_true, if_false]
+      exact C.dec_shape _ _ _ hk
+    · have hni : kindOf (asciiLower coding) ≠ .identity := by rw [hk]; decide
+      have hidd : identityDec.contains (asciiLower coding) = false := by
+        have := not_identity_contains hni
+        rwa [tbl_identity] at this
+      right
+      rw [hidd, C.unknown_dec _ _ _ hk]
+      rfl
+  rcases hu with ⟨d, hd⟩ | hv
+  · left
+    exact ⟨d, (decodeStep c x coding er f).2, Prod.ext (by rw [hres, hd]) rfl⟩
+  · right
+    have h1 : (decodeStep c x coding er f).1 = .verr := by rw [hres, hv]
+    exact Prod.ext h1 (decodeStep_err_cache c x coding er f (by intro d; rw [h1]; simp))
+
+private theorem getContent_shape {C : Codecs} {c : Cache} (hi : Inv C c) (m : Msg) (st : Bool) (f : Res) (raw : Bytes)
+    (hr : m.raw = some raw) (hok : OkName (effName m.ce))
+    (hf : ∀ x, m.ce = some x → x.isEmpty = false → identityDec.contains (asciiLower x) = false →
+      f = C.dec (asciiLower x) strictB raw) :
+    (∃ d c', getContent c m st f = (.ok d, c')) ∨ getContent c m st f = (.verr, c) := by
+  unfold getContent
+  simp only [hr]
+  cases hce : m.ce with
+  | none => left; exact ⟨raw, c, rfl⟩
+  | some x =>
+    simp only
+    cases hx : x.isEmpty
+    · simp only [Bool.false_eq_true, if_false]
+      have hn : effName m.ce = asciiLower x := by simp [effName, ceOrIdentity, hce, hx]
+      rw [hn] at hok
+      rcases decodeStep_shape hi raw x strictB f hok (hf x hce hx) with ⟨d, c', hd⟩ | hv
+      · left; rw [hd]; exact ⟨d, c', rfl⟩
+      · rw [hv]
+        cases st
+        · left; exact ⟨raw, c, rfl⟩
+        · right; rfl
+    · left; simp only [if_true]; exact ⟨raw, c, rfl⟩
+
+private theorem fixLen_idem (m : Msg) : fixLen (fixLen m) = fixLen m := by
+  obtain ⟨raw, ce, te, cl⟩ := m
+  cases te <;> rfl
+
+/-- a message without Content-Encoding whose Content-Length is already in order is a fixed point of `Message.decode` -/
+private theorem msgDecode_plain {C : Codecs} {c : Cache} (hi : Inv C c) (m : Msg) (d : Bytes)
+    (hr : m.raw = some d) (hce : m.ce = none) (hfix : fixLen m = m) (st : Bool) (f : Res) :
+    msgDecode c m st f = (.done, c, m) := by
+  unfold msgDecode
+  simp only [hr]
+  cases hd : d.isEmpty
+  · simp only [Bool.false_eq_true, if_false]
+    have hg : getContent c m st f = (.ok d, c) := by
+      unfold getContent
+      simp only [hr, hce]
+    rw [hg]
+    simp only
+    have hm : (⟨some d, none, m.te, m.cl⟩ : Msg) = m := by
+      obtain ⟨raw, ce, te, cl⟩ := m
+      simp only at hce hr
+      subst hce
+      subst hr
+      rfl
+    rw [hm, setContent_identity hi m d .verr (by rw [hce]; exact kind_eff_identityB)]
+    have hm2 : ({ m with raw := some d } : Msg) = m := by
+      obtain ⟨raw, ce, te, cl⟩ := m
+      simp only at hr
+      subst hr
+      rfl
+    rw [hm2, hfix]
+  · simp only [if_true]
+
+private theorem msgDecode_again {C : Codecs} {c : Cache} (hi : Inv C c) (m : Msg) (st : Bool) (f : Res)
+    (hok : OkName (effName m.ce))
+    (hf : ∀ raw x, m.raw = some raw → raw.isEmpty = false → m.ce = some x → x.isEmpty = false →
+      identityDec.contains (asciiLower x) = false → f = C.dec (asciiLower x) strictB raw)
+    (hi1 : ∀ raw, m.raw = some raw → raw.isEmpty = false → Inv C (getContent c m st f).2) :
+    ((msgDecode c m st f).1 = .done ∧
+      ∀ f2, msgDecode (msgDecode c m st f).2.1 (msgDecode c m st f).2.2 st f2 =
+        (.done, (msgDecode c m st f).2.1, (msgDecode c m st f).2.2)) ∨
+    msgDecode c m st f = (.verr, c, m) := by
+  cases hr : m.raw with
+  | none =>
+    left
+    have h : ∀ f', msgDecode c m st f' = (.done, c, m) := by intro f'; unfold msgDecode; simp only [hr]
+    rw [h f]; exact ⟨rfl, fun f2 => h f2⟩
+  | some raw =>
+    cases he : raw.isEmpty
+    · rcases getContent_shape hi m st f raw hr hok (fun x hce hx hid => hf raw x hr he hce hx hid) with ⟨d, c', hg⟩ | hv
+      · left
+        have hic : Inv C c' := by
+          have := hi1 raw hr he
+          rw [hg] at this
+          exact this
+        have hmd : msgDecode c m st f = (.done, c', fixLen { m with raw := some d, ce := none }) := by
+          unfold msgDecode
+          simp only [hr, he, Bool.false_eq_true, if_false]
+          rw [hg]
+          simp only
+          rw [setContent_identity hic ⟨some raw, none, m.te, m.cl⟩ d .verr kind_eff_identityB]
+        rw [hmd]
+        refine ⟨rfl, fun f2 => ?_⟩
+        exact msgDecode_plain hic _ d (by rw [fixLen_raw]) (by rw [fixLen_ce]) (fixLen_idem _) st f2
+      · right
+        unfold msgDecode
+        simp only [hr, he, Bool.false_eq_true, if_false]
+        rw [hv]
+    · left
+      have h : ∀ f', msgDecode c m st f' = (.done, c, m) := by
+        intro f'; unfold msgDecode; simp only [hr, he, if_true]
+      rw [h f]; exact ⟨rfl, fun f2 => h f2⟩
+
+private theorem fresh_mdecode (C : Codecs) (s : State) (i st : Bool) (raw : Bytes)
+    (hr : (s.msg i).raw = some raw) (he : raw.isEmpty = false) :
+    freshOf C s (.mdecode i st) = freshOf C s (.getContent i st) := by
+  simp [freshOf, need, hr, he]
+
+private theorem mdecode_again_inv {C : Codecs} {s : State} (hi : Inv C s.cache) (i st : Bool)
+    (hok : OkName (effName (s.msg i).ce)) :
+    step C (step C s (.mdecode i st)).1 (.mdecode i st) = step C s (.mdecode i st) := by
+  have key := msgDecode_again hi (s.msg i) st (freshOf C s (.mdecode i st)) hok
+    (by
+      intro raw x hr he hce hx hid
+      rw [fresh_mdecode C s i st raw hr he]
+      exact fresh_get C s i st raw x hr hce hx hid)
+    (by
+      intro raw hr he
+      rw [fresh_mdecode C s i st raw hr he]
+      have := step_inv C s (.getContent i st) hi
+      simpa [step, stepWith] using this)
+  rcases key with ⟨hd, hag⟩ | hv
+  · generalize ha : step C s (.mdecode i st) = a at *
+    have hc : a.1.cache = (msgDecode s.cache (s.msg i) st (freshOf C s (.mdecode i st))).2.1 := by
+      rw [← ha, step_mdecode, setMsg_cache]
+    have hm : a.1.msg i = (msgDecode s.cache (s.msg i) st (freshOf C s (.mdecode i st))).2.2 := by
+      rw [← ha, step_mdecode, setMsg_msg]
+    have h2 : a.2 = .done := by rw [← ha, step_mdecode]; exact hd
+    rw [step_mdecode, hc, hm, hag, ← hc, ← hm, setMsg_self]
+    exact Prod.ext rfl h2.symm
+  · have hs : step C s (.mdecode i st) = (s, .verr) := by
+      rw [step_mdecode, hv]
+      simp only
+      rw [setMsg_self]
+    rw [hs]
+    exact hs
+
+/-- **C31 (Message.decode is idempotent).** After any history, for a message whose coding is an identity name, a
+    compressed coding or unknown: a second `Message.decode()` right after the first returns the same outcome and
+    leaves both messages and the cache exactly as the first one left them (after a successful decode there is no
+    Content-Encoding left, so the second call is a plain re-assignment of the same bytes; after a failed strict
+    decode nothing was changed, so the second call fails identically). -/
+theorem decode_idempotent (C : Codecs) (s0 : State) (h0 : s0.cache = none) (ops : List Op) (i st : Bool)
+    (hok : OkName (effName (((run C s0 ops).1.msg i).ce))) :
+    step C (step C (run C s0 ops).1 (.mdecode i st)).1 (.mdecode i st) = step C (run C s0 ops).1 (.mdecode i st) :=
+  mdecode_again_inv (run_inv C s0 h0 ops) i st hok
+
+/-! ### longer histories: interleaved ops, nested encodings, Content-Length carried along -/
+
+private theorem run_append (C : Codecs) (a b : List Op) :
+    ∀ s, (run C s (a ++ b)).1 = (run C (run C s a).1 b).1 := by
+  induction a with
+  | nil => intro s; rfl
+  | cons o a ih => intro s; simp only [List.cons_append, run]; exact ih _
+
+private theorem run_cons_fst (C : Codecs) (s : State) (op : Op) (tail : List Op) :
+    (run C s (op :: tail)).1 = (run C (step C s op).1 tail).1 := rfl
+
+private theorem mdecode_inv {C : Codecs} {s : State} (hi : Inv C s.cache) (i st : Bool) (v : Bytes)
+    (hhdr : OkName (effName (s.msg i).ce)) (hget : (step C s (.getContent i true)).2 = .ok v) :
+    (step C s (.mdecode i st)).2 = .done ∧ ((step C s (.mdecode i st)).1.msg i).raw = some v := by
+  -- the uncached call named for get_content / Message.decode
+  have hfg : ∀ raw x, (s.msg i).raw = some raw → (s.msg i).ce = some x → x.isEmpty = false →
+      identityDec.contains (asciiLower x) = false →
+      freshOf C s (.getContent i true) = C.dec (asciiLower x) strictB raw := by
+    intro raw x hr hce hx hid
+    simp only [freshOf, need, needGet, hr, hce, hx, Bool.false_eq_true, if_false]
+    rw [needDec_of strictB raw hid]
+  have hsame : ∀ st', (s.msg i).raw ≠ none → (∀ raw, (s.msg i).raw = some raw → raw.isEmpty = false) →
+      freshOf C s (.mdecode i st') = freshOf C s (.getContent i true) := by
+    intro st' _ hne
+    cases hr : (s.msg i).raw with
+    | none => simp [freshOf, need, needGet, hr]
+    | some raw => simp [freshOf, need, hr, hne raw hr]
+  rw [step_get] at hget
+  -- split on the raw body: missing is impossible, empty makes decode a no-op, otherwise decode = get + identity set
+  have hdec : (msgDecode s.cache (s.msg i) st (freshOf C s (.mdecode i st))).1 = .done ∧
+      (msgDecode s.cache (s.msg i) st (freshOf C s (.mdecode i st))).2.2.raw = some v := by
+    cases hr : (s.msg i).raw with
+    | none =>
+      unfold getContent at hget
+      simp [hr] at hget
+    | some raw =>
+      cases he : raw.isEmpty
+      · have hfe : freshOf C s (.mdecode i st) = freshOf C s (.getContent i true) :=
+          hsame st (by rw [hr]; simp) (by intro r hr'; rw [hr] at hr'; cases hr'; exact he)
+        rw [hfe]
+        apply msgDecode_spec hi (s.msg i) st _ v hhdr hfg _ hget
+        have := step_inv C s (.getContent i st) hi
+        have hfe2 : freshOf C s (.getContent i st) = freshOf C s (.getContent i true) := by
+          simp [freshOf, need]
+        simpa [step, stepWith, hfe2] using this
+      · -- empty raw body: `Message.decode` returns at once, whatever `fresh` is
+        have hraw : raw = [] := List.isEmpty_iff.mp he
+        subst hraw
+        have hv : v = [] := get_empty hi hhdr hr (fun x hce hx hid => hfg [] x hr hce hx hid) hget
+        subst hv
+        have hmd : msgDecode s.cache (s.msg i) st (freshOf C s (.mdecode i st)) = (.done, s.cache, s.msg i) := by
+          unfold msgDecode
+          simp only [hr, List.isEmpty_nil, if_true]
+        rw [hmd]
+        exact ⟨rfl, hr⟩
+  rw [step_mdecode, setMsg_msg]
+  exact hdec
+
+private theorem fresh_mencode (C : Codecs) (s : State) (i : Bool) (cd v : Bytes) (hr : (s.msg i).raw = some v)
+    (hid : identityEnc.contains (effName (some cd)) = false) :
+    freshOf C s (.mencode i cd) = C.enc (effName (some cd)) strictB v := by
+  simp only [freshOf, need, hr]
+  rw [needEnc_of strictB v hid]
+  rfl
+
+private theorem mencode_inv {C : Codecs} {s : State} (hi : Inv C s.cache) (i : Bool) (cd v : Bytes)
+    (hr : (s.msg i).raw = some v) (hcd : OkName (effName (some cd))) :
+    (kindOf (effName (some cd)) = .unknown → (step C s (.mencode i cd)).2 = .verr) ∧
+    (kindOf (effName (some cd)) ≠ .unknown → (step C s (.mencode i cd)).2 = .done) ∧
+    (∀ st, (step C (step C s (.mencode i cd)).1 (.getContent i st)).2 = .ok v) := by
+  obtain ⟨hg, hu, hd⟩ := msgEncode_spec hi (s.msg i) v cd (freshOf C s (.mencode i cd)) hr hcd (fresh_mencode C s i cd v hr)
+  rw [step_mencode]
+  refine ⟨hu, hd, fun st => ?_⟩
+  rw [step_get]
+  simp only [setMsg_cache, setMsg_msg]
+  exact hg st _
+
+/-- **C31 (decode … encode, history form).** After any history: if a message (coding an identity name / compressed /
+    unknown) reads as `v`, then `Message.decode()`, ANY sub-history `tail1` of ops that are not writes to this message
+    (reads of it, every op on the other message, module-level encode/decode of arbitrary bodies — all of which may
+    replace the cache entry), `Message.encode(cd)`, ANY such `tail2`, and the message still reads as `v`. -/
+theorem decode_encode_preserves_interleaved (C : Codecs) (s0 : State) (h0 : s0.cache = none) (ops tail1 tail2 : List Op)
+    (i st : Bool) (v cd : Bytes)
+    (hhdr : OkName (effName (((run C s0 ops).1.msg i).ce))) (hcd : OkName (effName (some cd)))
+    (hget : (step C (run C s0 ops).1 (.getContent i true)).2 = .ok v)
+    (ht1 : ∀ o ∈ tail1, o.writes i = false) (ht2 : ∀ o ∈ tail2, o.writes i = false) :
+    (step C (run C s0 (ops ++ (.mdecode i st :: tail1) ++ (.mencode i cd :: tail2))).1 (.getContent i true)).2 = .ok v := by
+  have hi := run_inv C s0 h0 ops
+  rw [run_append, run_append, run_cons_fst, run_cons_fst]
+  generalize (run C s0 ops).1 = s at hi hhdr hget ⊢
+  obtain ⟨_, hraw⟩ := mdecode_inv hi i st v hhdr hget
+  have hia := step_inv C s (.mdecode i st) hi
+  generalize (step C s (.mdecode i st)).1 = a at hraw hia ⊢
+  have hib := run_inv' C tail1 a hia
+  have hrb : ((run C a tail1).1.msg i).raw = some v := by rw [run_frame C i tail1 a ht1]; exact hraw
+  generalize (run C a tail1).1 = b at hib hrb ⊢
+  obtain ⟨_, _, hg⟩ := mencode_inv hib i cd v hrb hcd
+  have hic := step_inv C b (.mencode i cd) hib
+  have hcv : contentOf C ((step C b (.mencode i cd)).1.msg i) true = .ok v := by
+    rw [← get_transparent_inv hic i true]; exact hg true
+  generalize (step C b (.mencode i cd)).1 = c at hic hcv ⊢
+  rw [get_transparent_inv (run_inv' C tail2 c hic) i true, run_frame C i tail2 c ht2]
+  exact hcv
+
+private theorem msgEncode_cached {C : Codecs} {c : Cache} (hi : Inv C c) (m : Msg) (v cd : Bytes) (f : Res)
+    (hr : m.raw = some v) (hk : kindOf (effName (some cd)) = .cached) (hf : f = C.enc (effName (some cd)) strictB v) :
+    ∃ x c', msgEncode c m cd f = (.done, c', fixLen ⟨some x, some cd, m.te, m.cl⟩) ∧
+      C.dec (effName (some cd)) strictB x = .ok v := by
+  obtain ⟨raw, ce, te, cl⟩ := m
+  simp only at hr
+  subst hr
+  obtain ⟨x, c', hs, h1, _, _⟩ := setContent_cached hi ⟨some v, some cd, te, cl⟩ v f hk hf
+  refine ⟨x, c', ?_, h1⟩
+  have hme : msgEncode c ⟨some v, ce, te, cl⟩ cd f =
+      (match setContent c ⟨some v, some cd, te, cl⟩ (some v) f with
+       | (.done, c', m') => if m'.ce.isNone then (.verr, c', m') else (.done, c', m')
+       | (r, c', m') => (r, c', m')) := rfl
+  rw [hme, hs]
+  simp [fixLen_ce]
+
+private theorem mencode_cached_inv {C : Codecs} {s : State} (hi : Inv C s.cache) (i : Bool) (cd v : Bytes)
+    (hr : (s.msg i).raw = some v) (hk : kindOf (effName (some cd)) = .cached) :
+    ∃ x, (step C s (.mencode i cd)).2 = .done ∧ ((step C s (.mencode i cd)).1.msg i).raw = some x ∧
+      ((step C s (.mencode i cd)).1.msg i).ce = some cd ∧ C.dec (effName (some cd)) strictB x = .ok v := by
+  have hni : kindOf (effName (some cd)) ≠ .identity := by rw [hk]; decide
+  obtain ⟨x, c', he, hd⟩ := msgEncode_cached hi (s.msg i) v cd (freshOf C s (.mencode i cd)) hr hk
+    (fresh_mencode C s i cd v hr (not_identity_contains hni))
+  refine ⟨x, ?_, ?_, ?_, hd⟩
+  · rw [step_mencode, he]
+  · rw [step_mencode, setMsg_msg, he, fixLen_raw]
+  · rw [step_mencode, setMsg_msg, he, fixLen_ce]
+
+/-- **C31 (encode after encode — "the content is not decoded beforehand").** After any history, on a message with raw
+    body `v`: `Message.encode(c1)` then `Message.encode(c2)` (compressed codings, any case) both complete; the body
+    after the first is some `x1` that decodes (uncached) to `v` under `c1`; the second WRAPS it: the final body `x2`
+    decodes under `c2` to `x1` — so `dec_c1 (dec_c2 raw) = v` — the header names only `c2`, and `get_content` now
+    returns the `c1`-encoded bytes `x1`, not `v`. -/
+theorem encode_after_encode (C : Codecs) (s0 : State) (h0 : s0.cache = none) (ops : List Op) (i : Bool) (v c1 c2 : Bytes)
+    (hr : ((run C s0 ops).1.msg i).raw = some v)
+    (hk1 : kindOf (effName (some c1)) = .cached) (hk2 : kindOf (effName (some c2)) = .cached) :
+    ∃ x1 x2,
+      (step C (run C s0 ops).1 (.mencode i c1)).2 = .done ∧
+      ((step C (run C s0 ops).1 (.mencode i c1)).1.msg i).raw = some x1 ∧
+      C.dec (effName (some c1)) strictB x1 = .ok v ∧
+      (step C (step C (run C s0 ops).1 (.mencode i c1)).1 (.mencode i c2)).2 = .done ∧
+      ((step C (step C (run C s0 ops).1 (.mencode i c1)).1 (.mencode i c2)).1.msg i).raw = some x2 ∧
+      ((step C (step C (run C s0 ops).1 (.mencode i c1)).1 (.mencode i c2)).1.msg i).ce = some c2 ∧
+      C.dec (effName (some c2)) strictB x2 = .ok x1 ∧
+      (step C (step C (step C (run C s0 ops).1 (.mencode i c1)).1 (.mencode i c2)).1 (.getContent i true)).2 = .ok x1 := by
+  have hi := run_inv C s0 h0 ops
+  generalize (run C s0 ops).1 = s at hi hr
+  obtain ⟨x1, hd1, hr1, _, hdec1⟩ := mencode_cached_inv hi i c1 v hr hk1
+  have hia := step_inv C s (.mencode i c1) hi
+  obtain ⟨x2, hd2, hr2, hce2, hdec2⟩ := mencode_cached_inv hia i c2 x1 hr1 hk2
+  obtain ⟨_, _, hg⟩ := mencode_inv hia i c2 x1 hr1 (Or.inr (Or.inl hk2))
+  exact ⟨x1, x2, hd1, hr1, hdec1, hd2, hr2, hce2, hdec2, hg true⟩
+
+/-! Content-Length along a history -/
+
+private theorem setContent_res_cases (c : Cache) (m : Msg) (v : Bytes) (f : Res) :
+    (setContent c m (some v) f).1 = .done ∨ (setContent c m (some v) f).1 = .terr := by
+  unfold setContent
+  simp only
+  generalize encodeStep c v (ceOrIdentity m.ce) strictB f = p
+  obtain ⟨r, c'⟩ := p
+  cases r <;> simp
+
+private theorem getContent_ne_done (c : Cache) (m : Msg) (st : Bool) (f : Res) : (getContent c m st f).1 ≠ .done := by
+  unfold getContent
+  cases m.raw with
+  | none => simp
+  | some raw =>
+    cases m.ce with
+    | none => simp
+    | some x =>
+      simp only
+      split
+      · simp
+      · generalize decodeStep c raw x strictB f = p
+        obtain ⟨r, c'⟩ := p
+        cases r <;> cases st <;> simp
+
+private theorem msgDecode_len (c : Cache) (m : Msg) (st : Bool) (f : Res) (r : Bytes)
+    (hr : m.raw = some r) (he : r.isEmpty = false) (hd : (msgDecode c m st f).1 = .done) :
+    (m.te = false → ∃ raw, (msgDecode c m st f).2.2.raw = some raw ∧ (msgDecode c m st f).2.2.cl = some raw.length) ∧
+    (msgDecode c m st f).2.2.te = m.te := by
+  obtain ⟨raw, ce, te, cl⟩ := m
+  simp only at hr
+  subst hr
+  have hnd := getContent_ne_done c ⟨some r, ce, te, cl⟩ st f
+  unfold msgDecode at hd ⊢
+  simp only [he, Bool.false_eq_true, if_false] at hd ⊢
+  generalize getContent c ⟨some r, ce, te, cl⟩ st f = p at hd hnd ⊢
+  obtain ⟨r', c'⟩ := p
+  cases r' with
+  | ok d =>
+    simp only at hd ⊢
+    have := setContent_len _ _ _ _ hd
+    exact ⟨this.1, this.2.2⟩
+  | done => exact absurd rfl hnd
+  | str => simp at hd
+  | verr => simp at hd
+  | terr => simp at hd
+  | nil => simp at hd
+
+private theorem msgEncode_len (c : Cache) (m : Msg) (cd : Bytes) (f : Res) (r : Bytes)
+    (hr : m.raw = some r) (hne : (msgEncode c m cd f).1 ≠ .terr) :
+    (m.te = false → ∃ raw, (msgEncode c m cd f).2.2.raw = some raw ∧ (msgEncode c m cd f).2.2.cl = some raw.length) ∧
+    (msgEncode c m cd f).2.2.te = m.te := by
+  obtain ⟨raw, ce, te, cl⟩ := m
+  simp only at hr
+  subst hr
+  rcases setContent_res_cases c ⟨some r, some cd, te, cl⟩ r f with hdone | hterr
+  · have hst : (msgEncode c ⟨some r, ce, te, cl⟩ cd f).2 = (setContent c ⟨some r, some cd, te, cl⟩ (some r) f).2 :=
+      msgEncode_state c ⟨some r, ce, te, cl⟩ cd f hdone
+    rw [hst]
+    have := setContent_len _ _ _ _ hdone
+    exact ⟨this.1, this.2.2⟩
+  · exfalso
+    apply hne
+    have hme : msgEncode c ⟨some r, ce, te, cl⟩ cd f =
+        (match setContent c ⟨some r, some cd, te, cl⟩ (some r) f with
+         | (.done, c', m') => if m'.ce.isNone then (.verr, c', m') else (.done, c', m')
+         | (r', c', m') => (r', c', m')) := rfl
+    rw [hme]
+    generalize setContent c ⟨some r, some cd, te, cl⟩ (some r) f = p at hterr
+    obtain ⟨r', c', m'⟩ := p
+    simp only at hterr
+    subst hterr
+    rfl
+
+private theorem assign_len (C : Codecs) (s : State) (i : Bool) (op : Op) (h : completesAssign C s i op)
+    (hte : ((step C s op).1.msg i).te = false) :
+    ∃ raw, ((step C s op).1.msg i).raw = some raw ∧ ((step C s op).1.msg i).cl = some raw.length := by
+  cases op with
+  | setContent j v =>
+    cases v with
+    | none => exact absurd h (by simp [completesAssign])
+    | some v =>
+      obtain ⟨hj, hd⟩ := h
+      subst hj
+      rw [step_set] at hd hte ⊢
+      simp only [setMsg_msg] at hte ⊢
+      obtain ⟨h1, _, h3⟩ := setContent_len _ _ _ _ hd
+      rw [h3] at hte
+      exact h1 hte
+  | mdecode j st =>
+    obtain ⟨hj, ⟨r, hr, he⟩, hd⟩ := h
+    subst hj
+    rw [step_mdecode] at hd hte ⊢
+    simp only [setMsg_msg] at hte ⊢
+    obtain ⟨h1, h3⟩ := msgDecode_len s.cache (s.msg j) st (freshOf C s (.mdecode j st)) r hr he hd
+    rw [h3] at hte
+    exact h1 hte
+  | mencode j cd =>
+    obtain ⟨hj, ⟨r, hr⟩, hne⟩ := h
+    subst hj
+    rw [step_mencode] at hne hte ⊢
+    simp only [setMsg_msg] at hte ⊢
+    obtain ⟨h1, h3⟩ := msgEncode_len s.cache (s.msg j) cd (freshOf C s (.mencode j cd)) r hr hne
+    rw [h3] at hte
+    exact h1 hte
+  | dec x c e => exact absurd h (by simp [completesAssign])
+  | enc d c e => exact absurd h (by simp [completesAssign])
+  | getContent j st => exact absurd h (by simp [completesAssign])
+  | setRaw j v => exact absurd h (by simp [completesAssign])
+  | setCe j v => exact absurd h (by simp [completesAssign])
+  | setTe j on => exact absurd h (by simp [completesAssign])
+  | setCl j n => exact absurd h (by simp [completesAssign])
+
+/-- **C31 (Content-Length, carried along the history).** After any history `ops`: if `op` is a content assignment
+    on message `i` that ran to completion (`set_content(bytes)`, `Message.decode` of a non-empty body,
+    `Message.encode` of a present body) and the message has no Transfer-Encoding header, then after ANY further
+    sub-history `tail` without writes to message `i` (reads, ops on the other message, module-level codec calls)
+    Content-Length still equals the length of the raw body.  Holds for every coding and whatever the codecs return. -/
+theorem content_length_invariant (C : Codecs) (s0 : State) (ops tail : List Op) (i : Bool) (op : Op)
+    (hop : completesAssign C (run C s0 ops).1 i op)
+    (hte : ((step C (run C s0 ops).1 op).1.msg i).te = false)
+    (htail : ∀ o ∈ tail, o.writes i = false) :
+    ∃ raw, ((run C s0 (ops ++ op :: tail)).1.msg i).raw = some raw ∧
+      ((run C s0 (ops ++ op :: tail)).1.msg i).cl = some raw.length := by
+  rw [run_append, run_cons_fst, run_frame C i tail _ htail]
+  exact assign_len C _ i op hop hte
+
+/-! ### non-vacuity for the round-3 theorems (kernel-evaluated on `toy`) -/
+
+-- `contentOf` is not constant: bytes / strict error / non-strict fallback / missing body / text codec
+example : contentOf toy okState.m0 true = .ok [7, 8] ∧
+    contentOf toy ⟨some [3, 3], some brN, false, none⟩ true = .verr ∧
+    contentOf toy ⟨some [3, 3], some brN, false, none⟩ false = .ok [3, 3] ∧
+    contentOf toy ⟨none, some brN, false, none⟩ true = .nil ∧
+    contentOf toy ⟨some [5], some utf8N, false, none⟩ true = .verr := by decide
+-- the hypotheses of the tail theorems are satisfiable by tails that really disturb the cache
+example : ∀ o ∈ [Op.getContent false true, .setContent true (some [9]), .enc [9, 9] gzipN strictB, .mencode true brN],
+    o.writes false = false := by decide
+example : completesAssign toy okState false (.setContent false (some [4])) := ⟨rfl, by decide⟩
+example : completesAssign toy okState false (.mdecode false true) := ⟨rfl, ⟨[1, 7, 8], rfl, rfl⟩, by decide⟩
+example : completesAssign toy okState false (.mencode false fooN) := ⟨rfl, ⟨[1, 7, 8], rfl⟩, by decide⟩
+-- decode; (ops elsewhere that replace the cache entry); encode; (more such ops); read: still [7, 8]
+example : (run toy okState [.mdecode false true, .enc [9, 9] gzipN strictB, .setContent true (some [9]),
+    .mencode false brN, .setCe true (some gzipN), .setContent true (some [5]), .getContent true true,
+    .getContent false true]).2.getLast? = some (.ok [7, 8]) := by decide
+-- the same history: Content-Length of message 0 follows its raw body (3 bytes: 1 :: [7, 8])
+example : (run toy okState [.mdecode false true, .enc [9, 9] gzipN strictB, .mencode false brN,
+    .setContent true (some [5]), .getContent false true]).1.m0 = ⟨some [1, 7, 8], some brN, false, some 3⟩ := by decide
+-- encode after encode wraps: raw [7] -> br [1,7] -> gzip [1,1,7]; the content is then the br stream, not [7]
+example : (run toy ⟨none, ⟨some [7], none, false, none⟩, emptyMsg⟩
+    [.mencode false brN, .mencode false gzipN, .getContent false true]) =
+    (⟨some ⟨[1, 1, 7], gzipN, strictB, [1, 7]⟩, ⟨some [1, 1, 7], some gzipN, false, some 3⟩, emptyMsg⟩,
+     [.done, .done, .ok [1, 7]]) := by decide
+-- set twice = set once (whole state), decode twice = decode once, also when the strict decode fails
+example : (run toy okState [.setContent false (some [4]), .setContent false (some [4])]).1 =
+    (run toy okState [.setContent false (some [4])]).1 := by decide
+example : (run toy okState [.mdecode false true, .mdecode false true]) =
+    (⟨some ⟨[1, 7, 8], brN, strictB, [7, 8]⟩, ⟨some [7, 8], none, false, some 2⟩, emptyMsg⟩, [.done, .done]) := by decide
+example : (run toy ⟨none, ⟨some [3, 3], some brN, false, none⟩, emptyMsg⟩ [.mdecode false true, .mdecode false true]) =
+    (⟨none, ⟨some [3, 3], some brN, false, none⟩, emptyMsg⟩, [.verr, .verr]) := by decide
+
 end MitmVerif.Props.C31
